@@ -12,14 +12,17 @@ META = {
              "handed out with its vigil taken under the lock that covers the listener's idle decision and the closing flip) every "
              "reachable state keeps every acknowledged, not deleted write in the memory of the mapped, not yet flushed instance or in "
              "the file — for every schedule, any number of request threads and any initial file; closed counterexamples for the "
-             "current facts: destroy_loses_acked_write and idle_close_loses_acked_write; classify_sound over three extracted facts."),
-    "note": ("PARTIAL: time is abstracted to listener read/decide steps (the 30 s summon wait and the 10 s + 30 s graceful-stop "
-             "timeouts are not modelled); graceful stop is covered only as `Close()` with nothing in flight (tryToCloseAllSwamps calls "
-             "Close() without looking at vigils — the same window as the idle close, not forced here); the three CloneAndDelete* "
-             "auto-destroy sites share the DeleteTreasure shape and are not driven separately; keys are a set (values are carried by "
-             "the driver); acknowledged *deletes* are checked by the correspondence and the Spec oracle only (the Lean statement is "
-             "about acknowledged inserts/updates).  The Go scheduler is driven, not enumerated.  Trusted: Lean kernel, extract/c16.go, harness/c16.go, "
-             "sync.Cond / atomic semantics."),
+             "unrepaired facts: destroy_loses_acked_write and idle_close_loses_acked_write; classify_sound over three extracted facts.  "
+             "In the repaired model a destroy that finds a record after the drain becomes a close (flush, unmap)."),
+    "note": ("PARTIAL: time is abstracted to listener read/decide steps (the 30 s summon wait and the 10 s + 30 s forced-close "
+             "timeouts of GracefulStop are not modelled); graceful stop is `Close()` of every mapped instance with nothing in flight, "
+             "followed by the process exit (`Act.exit`, enabled only once nothing is mapped) — tryToCloseAllSwamps calls Close() "
+             "without looking at vigils, the same window as the idle close, not forced here; the three CloneAndDelete* auto-destroy "
+             "sites share the DeleteTreasure shape (all four go through destroyIfEmpty, checked by the extractor) and are not driven "
+             "separately; an explicit Destroy() is not an action of the model; keys are a set (values, delete markers and the "
+             "re-created-key case are carried by the driver, not by a theorem); acknowledged *deletes* are checked by the "
+             "correspondence and the Spec oracle only.  The Go scheduler is driven, not enumerated.  Trusted: Lean kernel, "
+             "extract/c16.go, harness/c16.go, sync.Cond / atomic semantics."),
     "design_ref": "§8 C16",
 }
 
@@ -29,6 +32,11 @@ FINDINGS = {
     "C16-delete-after-recreate-resurrects": "delete, set, delete on a key that is in the file: the set drops the queued delete marker and "
                                             "the second delete sees an object without a file pointer and queues nothing, so the "
                                             "acknowledged delete never reaches the file and the old record is back after re-opening",
+    "C16-stop-returns-before-swamps-closed": "GracefulStop returns while swamps are still mapped (their close has not flushed yet): the "
+                                             "process exits and acknowledged writes that were only in memory are gone",
+    "C16-summon-replaces-closing-instance": "SummonSwamp does not go back to the swamp map after WaitForGracefulClose: it creates and maps a "
+                                            "fresh instance while the closing one's callback — which removes the map entry by name — is "
+                                            "still to come; the fresh instance is unmapped, its acknowledged writes are never found again",
     "C16-idle-close-loses-acked-write": "the close listener decides from a last-interaction time it read before taking its lock, and "
                                         "SummonSwamp hands out the instance before the caller's BeginVigil: a request that was just "
                                         "handed the instance writes into an instance that is already closed; the acknowledged write is "
@@ -47,7 +55,7 @@ def spec_violated(rep):
             live[f[1]] = f[2]
         if f[0] == "del" and line == "DELETED":
             live.pop(f[1], None)
-        if f[0] == "spawn":
+        if f[0] in ("spawn", "spawnw"):
             pend[f[1]] = f[2:]
         m = re.match(r"(\w) done (\w+)", line)
         if m and m.group(1) in pend:
@@ -58,7 +66,10 @@ def spec_violated(rep):
                 live.pop(p[1], None)
         if "stuck" in line or line == "hang":
             return "request hangs at `%s`" % op
-        if f[0] == "reopen" and not pend:
+        m2 = re.match(r"stopped open=(\d+)", line)
+        if m2 and int(m2.group(1)) > 0:
+            return "GracefulStop returned with %s swamp(s) still mapped: a process exit now loses %s" % (m2.group(1), sorted(live))
+        if f[0] == "reopen" and not pend and line != "keys=?":
             got = dict(x.split(":") for x in re.match(r"keys=\[([^\]]*)\]", line).group(1).split(",") if x)
             for k, v in live.items():
                 if got.get(k) != v:
@@ -75,7 +86,7 @@ def run(ctx):
     corrs = []
     if K.build_hx(ctx) and K.build_drv(ctx):
         args = ["%s=%s" % (k, facts.get(k, "unknown")) for k in
-                ("destroyRechecksAfterDrain", "listenerReadsTouchUnderLock", "summonTakesVigil", "recreateDropsDeleteMarker")]
+                ("destroyRechecksAfterDrain", "listenerReadsTouchUnderLock", "summonTakesVigil", "recreateDropsDeleteMarker", "summonWaitsForUnmap", "stopWaitsUntilClosed")]
         c = K.correspondence(ctx, "C16", args, timeout=900)
         corrs.append(("C16", args, c))
     else:
@@ -94,7 +105,9 @@ def run(ctx):
         samples.append({"ops": [c.ops[i] for i in cs], "impl": [c.impl[i] for i in cs if i < len(c.impl)]})
     return K.finish(
         ctx, "proof",
-        rule=("cases: four corpus cases (auto-destroy draining an in-flight insert; idle close with a stale reading while a request "
+        rule=("(besides the cases below: a request summoning while a closing instance is flushed but still mapped; random histories "
+              "around one request parked between summon / vigil / write; graceful stop on a server of its own with the data "
+              "directory copied at the instant GracefulStop returns)  cases: four corpus cases (auto-destroy draining an in-flight insert; idle close with a stale reading while a request "
               "holds the instance without a vigil; the same two shapes without the race) followed by random sequential histories of "
               "set / del / close / reopen (4..11 ops, 3 keys) ending in close + reopen.  Every reply (status, park point, keys found "
               "after re-opening) is compared between the real server and the Lean model; the Spec oracle compares the acknowledged set "
